@@ -52,6 +52,7 @@ CONTROLS = {
          "op2->pt == op2->next->pt || preserve_collinear_ ||", "T.removal"),
     ],
     "C04": [
+        ('tree builder caches the number of output records', 'CPP/Clipper2Lib/src/clipper.engine.cpp', '    for (size_t i = 0; i < outrec_list_.size(); ++i)\n    {\n      OutRec* outrec = outrec_list_[i];\n      if (!outrec || !outrec->pts) continue;\n      if (outrec->is_open)\n      {\n        Path64 path;', '    const size_t cnt = outrec_list_.size();\n    for (size_t i = 0; i < cnt; ++i)\n    {\n      OutRec* outrec = outrec_list_[i];\n      if (!outrec || !outrec->pts) continue;\n      if (outrec->is_open)\n      {\n        Path64 path;', 'LOOP.bound-live'),
         ("a clear inside vote is sent to the midpoint fallback", E, "    if (std::abs(outside_cnt) > 1) return (outside_cnt < 0);", "    if (outside_cnt > 1) return false;", "T.inside-vote"),
         ("MoveSplits overwrites the destination list", E, "    for (; orIter != fromOr->splits->end(); ++orIter)\n      toOr->splits->emplace_back(*orIter);", "    *toOr->splits = *fromOr->splits;", "SPLITS.append-only"),
         ("tree mode changes a non-ownership field", E, "        if (using_polytree_)\n          SetOwner(outrec, prevHotEdge->outrec);",
@@ -70,6 +71,8 @@ CONTROLS = {
         ("closing vertex compared with the first vertex of the first path", E, "if (!is_open && prev_v->pt == v0->pt)", "if (!is_open && prev_v->pt == vertices->pt)", "ADD.closing-vertex"),
     ],
     "C06": [
+        ('bevel joins made as square joins', 'CPP/Clipper2Lib/src/clipper.offset.cpp', '\telse if ( join_type_ == JoinType::Bevel)\n\t\tDoBevel(path, j, k);', '\telse if ( join_type_ == JoinType::Bevel)\n\t\tDoSquare(path, j, k);', 'JOIN.dispatch'),
+        ('zero delta returns before the clean-up union', 'CPP/Clipper2Lib/src/clipper.offset.cpp', '\tsolution->reserve(CalcSolutionCapacity());\n', '\tsolution->reserve(CalcSolutionCapacity());\n\tif (delta == 0) return;\n', 'OFFSET.cleanup'),
         ('miter point uses one normal twice (both builds)', 'CPP/Clipper2Lib/src/clipper.offset.cpp', '#ifdef USINGZ\n    path_out.emplace_back(\n\t\tpath[j].x + (norms[k].x + norms[j].x) * q,\n\t\tpath[j].y + (norms[k].y + norms[j].y) * q,\n        path[j].z);\n#else\n    path_out.emplace_back(\n\t\tpath[j].x + (norms[k].x + norms[j].x) * q,\n        path[j].y + (norms[k].y + norms[j].y) * q);', '#ifdef USINGZ\n    path_out.emplace_back(\n\t\tpath[j].x + (norms[k].x + norms[j].x) * q,\n\t\tpath[j].y + (norms[k].y + norms[k].y) * q,\n        path[j].z);\n#else\n    path_out.emplace_back(\n\t\tpath[j].x + (norms[k].x + norms[j].x) * q,\n        path[j].y + (norms[k].y + norms[k].y) * q);', 'POLY.offset'),
         ("mitered vertex differs in the USINGZ build only", O, "#ifdef USINGZ\n    path_out.emplace_back(\n\t\tpath[j].x + (norms[k].x + norms[j].x) * q,\n\t\tpath[j].y + (norms[k].y + norms[j].y) * q,\n        path[j].z);", "#ifdef USINGZ\n    path_out.emplace_back(\n\t\tpath[j].x + (norms[k].x + norms[j].x) * q,\n\t\tpath[j].y + (norms[k].y + norms[k].y) * q,\n        path[j].z);", "ZERASE"),
         ("miter threshold derived once in the constructor only", O, "\t\ttemp_lim_ = (miter_limit_ <= 1) ?\n", "\t\tif (temp_lim_ == 0) temp_lim_ = (miter_limit_ <= 1) ?\n", "TARGET.set"),
@@ -86,6 +89,7 @@ CONTROLS = {
         ("sum computed with the operands exchanged", H + "clipper.minkowski.h", "      if (patLen == 0 || pathLen == 0) return Paths64();\n", "      if (patLen == 0 || pathLen == 0) return Paths64();\n      if (isSum && pathLen > patLen) return Minkowski(path, pattern, true, isClosed);\n", "MINK.roles"),
     ],
     "C07": [
+        ('miter allowed up to the limit itself instead of its cosine', 'CPP/Clipper2Lib/src/clipper.offset.cpp', '\t\tif (cos_a > temp_lim_ - 1) DoMiter(path, j, k, cos_a);', '\t\tif (cos_a > temp_lim_) DoMiter(path, j, k, cos_a);', 'JOIN.dispatch'),
         ('unit normal points to the left of the edge', 'CPP/Clipper2Lib/src/clipper.offset.cpp', '\treturn PointD(dy, -dx);', '\treturn PointD(-dy, dx);', 'POLY.offset'),
         ('miter threshold derived once in the constructor only', 'CPP/Clipper2Lib/src/clipper.offset.cpp', '\t\ttemp_lim_ = (miter_limit_ <= 1) ?\n', '\t\tif (temp_lim_ == 0) temp_lim_ = (miter_limit_ <= 1) ?\n', 'LIMIT.rederived'),
         ("mitered vertex differs in the USINGZ build only", O, "#ifdef USINGZ\n    path_out.emplace_back(\n\t\tpath[j].x + (norms[k].x + norms[j].x) * q,\n\t\tpath[j].y + (norms[k].y + norms[j].y) * q,\n        path[j].z);", "#ifdef USINGZ\n    path_out.emplace_back(\n\t\tpath[j].x + (norms[k].x + norms[j].x) * q,\n\t\tpath[j].y + (norms[k].y + norms[k].y) * q,\n        path[j].z);", "ZERASE"),
@@ -95,6 +99,7 @@ CONTROLS = {
         ("closing vertex stripped for open end types too", O, "\tfor (Path64& p: paths_in)\n\t  StripDuplicates(p, is_joined);", "\tfor (Path64& p: paths_in)\n\t  StripDuplicates(p, true);", "GROUP.strip-closed"),
     ],
     "C08": [
+        ('touching case of the third end point stores the fourth', 'CPP/Clipper2Lib/src/clipper.rectclip.cpp', '    if (res3 == 0)\n    {\n      ip = p3;', '    if (res3 == 0)\n    {\n      ip = p4;', 'POLY.intersect'),
         ("from Left, a vertex above the rectangle and right of it is classed Top", R, "      else if (path[i].x >= rect_.right) loc = Location::Right;\n      else if (path[i].y <= rect_.top) loc = Location::Top;\n      else if (path[i].y >= rect_.bottom) loc = Location::Bottom;\n      else loc = Location::Inside;\n      break;\n\n    case Location::Top:", "      else if (path[i].y <= rect_.top) loc = Location::Top;\n      else if (path[i].x >= rect_.right) loc = Location::Right;\n      else if (path[i].y >= rect_.bottom) loc = Location::Bottom;\n      else loc = Location::Inside;\n      break;\n\n    case Location::Top:", "T.next-location"),
         ("clockwise step counted with a signed remainder", R, "        case -3: result += 1; break;", "        case -3: break;", "T.side-algebra"),
         ("Contains made strict on the right", H + "clipper.core.h", "      return rec.left >= left && rec.right <= right &&",
@@ -103,6 +108,7 @@ CONTROLS = {
          "      for (OutPt2List &edge : edges_) edge.clear();\n    }\n    return result;", "LOOP"),
     ],
     "C09": [
+        ('touching case of the second end point stores the first', 'CPP/Clipper2Lib/src/clipper.rectclip.cpp', '    else if (res2 == 0)\n    {\n      ip = p2;', '    else if (res2 == 0)\n    {\n      ip = p1;', 'POLY.intersect'),
         ("segment scan starts where the pre-scan stopped", R, "      if (prev == Location::Inside) loc = Location::Inside;\n      i = 1;", "      if (prev == Location::Inside) loc = Location::Inside;", "SCAN.start"),
         ("a point above the rectangle classified as below it", R, "    else if (pt.y < rec.top) loc = Location::Top;", "    else if (pt.y < rec.top) loc = Location::Bottom;", "T.location"),
         ("a point on the bottom edge right of the rectangle counts as on the edge", R, "    else if (pt.y == rec.bottom && pt.x >= rec.left && pt.x <= rec.right)", "    else if (pt.y == rec.bottom && pt.x >= rec.left)", "T.location"),
@@ -147,6 +153,7 @@ CONTROLS = {
          "\t\tif (!group.lowest_path_idx.has_value()) delta_ = std::abs(delta_);\n\t\tgroup_delta_ = (group.is_reversed) ? -delta_ : delta_;", "LOOP"),
     ],
     "C13": [
+        ('Union of a single path hands the path back', 'CPP/Clipper2Lib/include/clipper2/clipper.h', '  inline Paths64 Union(const Paths64& subjects, FillRule fillrule)\n  {\n    Paths64 result;', '  inline Paths64 Union(const Paths64& subjects, FillRule fillrule)\n  {\n    if (subjects.size() == 1) return subjects;\n    Paths64 result;', 'WRAP.no-passthrough'),
         ('GetDx divides dy by dx', 'CPP/Clipper2Lib/src/clipper.engine.cpp', '      return double(pt2.x - pt1.x) / dy;', '      return dy / double(pt2.x - pt1.x);', 'POLY.topx'),
         ("CrossProductSign's last factor measured from pt1", 'CPP/Clipper2Lib/include/clipper2/clipper.core.h', '    const auto c = pt2.y - pt1.y;\n    const auto d = pt3.x - pt2.x;\n\n#if', '    const auto c = pt2.y - pt1.y;\n    const auto d = pt3.x - pt1.x;\n\n#if', 'POLY.cross'),
         ("TopX rounds in single precision", E, "return ae.bot.x + static_cast<int64_t>(nearbyint(ae.dx * (currentY - ae.bot.y)));", "return ae.bot.x + static_cast<int64_t>(nearbyintf(ae.dx * (currentY - ae.bot.y)));", "FLOAT.double-only"),
@@ -176,6 +183,7 @@ CONTROLS = {
          "    if (path.size() == 3 && IsVerySmallTriangle(*op2)) return false;\n    return true;", "SIBLING.64-D"),
     ],
     "C17": [
+        ('BooleanOp64 adds the subject only when there are clips', 'CPP/Clipper2Lib/include/clipper2/clipper.export.h', '  if (sub.size() > 0) clipper.AddSubject(sub);\n  if (sub_open.size() > 0) clipper.AddOpenSubject(sub_open);\n  if (clp.size() > 0) clipper.AddClip(clp);\n  if (!clipper.Execute(ClipType(cliptype), FillRule(fillrule), sol, sol_open))\n    return -1; // clipping bug - should never happen :)', '  if (sub.size() > 0 && clp.size() > 0) clipper.AddSubject(sub);\n  if (sub_open.size() > 0) clipper.AddOpenSubject(sub_open);\n  if (clp.size() > 0) clipper.AddClip(clp);\n  if (!clipper.Execute(ClipType(cliptype), FillRule(fillrule), sol, sol_open))\n    return -1; // clipping bug - should never happen :)', 'FORWARD.param'),
         ("tree serialiser takes the write cursor by value", H + "clipper.export.h", "static void CreateCPolyPathD(const PolyPathD* pp, double*& v)", "static void CreateCPolyPathD(const PolyPathD* pp, double* v)", "LAYOUT.cursor"),
         ("export converter truncates instead of rounding", H + "clipper.export.h", "    {\n      double x = *v++ * scale;\n      double y = *v++ * scale;\n#ifdef USINGZ\n      z_type z = Reinterpret<z_type>(*v++);\n      path.emplace_back(x, y, z);", "    {\n      int64_t x = static_cast<int64_t>(*v++ * scale);\n      int64_t y = static_cast<int64_t>(*v++ * scale);\n#ifdef USINGZ\n      z_type z = Reinterpret<z_type>(*v++);\n      path.emplace_back(x, y, z);", "ROUND"),
         ("Z written by value conversion, read by bit copy", H + "clipper.export.h", "      *v++ = pt.x * scale;\n      *v++ = pt.y * scale;\n#ifdef USINGZ\n      *v++ = Reinterpret<double>(pt.z);",
@@ -186,6 +194,7 @@ CONTROLS = {
          "  ClipperOffset clip_offset( miter_limit,\n    arc_tolerance, false, reverse_solution);", "  ClipperOffset clip_offset( miter_limit,\n    arc_tolerance, reverse_solution);", "FORWARD.param"),
     ],
     "C18": [
+        ('Multiply fast path when only the first operand is small', 'CPP/Clipper2Lib/include/clipper2/clipper.core.h', '    const auto hi = [](uint64_t x) { return x >> 32; };\n', '    const auto hi = [](uint64_t x) { return x >> 32; };\n    if (hi(a) == 0) return { a * b, 0 };\n', 'P.multiply-no-wrap'),
         ('DistanceSqr mixes the axes', 'CPP/Clipper2Lib/include/clipper2/clipper.core.h', '    return Sqr(pt1.x - pt2.x) + Sqr(pt1.y - pt2.y);', '    return Sqr(pt1.x - pt2.x) + Sqr(pt1.y - pt2.x);', 'POLY.measure'),
         ('segment intersection parameter uses the far end of the second segment', 'CPP/Clipper2Lib/include/clipper2/clipper.core.h', '    double t = ((ln1a.x - ln2a.x) * dy2 - (ln1a.y - ln2a.y) * dx2) / det;', '    double t = ((ln1a.x - ln2b.x) * dy2 - (ln1a.y - ln2a.y) * dx2) / det;', 'POLY.intersect'),
         ("CrossProductSign's second factor measured from pt1", 'CPP/Clipper2Lib/include/clipper2/clipper.core.h', '    const auto b = pt3.y - pt2.y;', '    const auto b = pt3.y - pt1.y;', 'POLY.cross'),
@@ -196,6 +205,7 @@ CONTROLS = {
         ("partial sum can wrap", H + "clipper.core.h", "    const uint64_t x2 = hi(a) * lo(b) + hi(x1);", "    const uint64_t x2 = hi(a) * lo(b) + x1;", "P.multiply-no-wrap"),
     ],
     "C20": [
+        ('RDP gets the epsilon unsquared', 'CPP/Clipper2Lib/include/clipper2/clipper.h', '    RDP(path, 0, len - 1, Sqr(epsilon), flags);', '    RDP(path, 0, len - 1, epsilon, flags);', 'EPS.degree'),
         ('Ellipse turns dy with the already updated dx', 'CPP/Clipper2Lib/include/clipper2/clipper.h', '      double x = dx * co - dy * si;\n      dy = dy * co + dx * si;\n      dx = x;', '      dx = dx * co - dy * si;\n      dy = dy * co + dx * si;', 'POLY.utilities'),
         ('perpendicular distance divides by a mixed term', 'CPP/Clipper2Lib/include/clipper2/clipper.core.h', '    return Sqr(a * d - c * b) / (c * c + d * d);', '    return Sqr(a * d - c * b) / (c * c + d * c);', 'POLY.measure'),
         ('a vertex that lowers the minimum cannot raise the maximum (GetBounds(Path))', 'CPP/Clipper2Lib/include/clipper2/clipper.core.h', '      if (p.x < xmin) xmin = p.x;\n      if (p.x > xmax) xmax = p.x;\n      if (p.y < ymin) ymin = p.y;\n      if (p.y > ymax) ymax = p.y;\n    }\n    return Rect<T>(xmin, ymin, xmax, ymax);\n  }\n\n  template <typename T>\n  Rect<T> GetBounds(const Paths<T>& paths)', '      if (p.x < xmin) xmin = p.x;\n      else if (p.x > xmax) xmax = p.x;\n      if (p.y < ymin) ymin = p.y;\n      if (p.y > ymax) ymax = p.y;\n    }\n    return Rect<T>(xmin, ymin, xmax, ymax);\n  }\n\n  template <typename T>\n  Rect<T> GetBounds(const Paths<T>& paths)', 'BOUNDS.minmax'),
